@@ -2,6 +2,8 @@
 //! decoder. Same generator, executor and reference models as `adsb-sim` (the sources are included
 //! by path); expiry calls and the clock do not exist in this configuration and are skipped.
 
+// (some helpers of the shared sources are only used by the std build)
+#[allow(dead_code, unused_mut, unreachable_code)]
 #[path = "../../sim/src/tracker/mod.rs"]
 mod tracker;
 
